@@ -97,6 +97,19 @@ func (o *labelOracle) OnWrite(s *Sim, w *Write) {
 	if br.Status.CanaryStatus.NoNeedUpdateReplicas != nil || strings.Contains(s.firedEvents(), "scale") {
 		return // rollback in batches and rescaled workloads use other budgets; not judged here
 	}
+	if o.sc.Family == "deploy-canary" {
+		// with a duplicated canary Deployment (the C06 A1 finding: create answered with an error after it was applied) the
+		// pods of both carry the labels; the budget of "the" canary workload is undefined then
+		live := 0
+		for _, k := range s.Store.Keys(gkDeployment) {
+			if d := s.Store.Peek(k).(*appsv1.Deployment); d.Labels[canaryDepLabel] == o.sc.Name && d.Namespace == o.sc.NS {
+				live++
+			}
+		}
+		if live > 1 {
+			return
+		}
+	}
 	n := 0
 	if t := s.cur; t != nil {
 		if rr, ok := t.LastRead[ObjKey{GK: workloadGK(o.sc), NS: o.sc.NS, Name: o.sc.Name}]; ok && rr.Found {
